@@ -28,8 +28,17 @@ pub fn ctls_expect(c: &Option<Vec<Ctl>>) -> Vec<CtlC> {
     c.as_ref().map(|v| v.iter().map(ctl_expect).collect()).unwrap_or_default()
 }
 
+/// Marker in an expected value: the server sent a result code that no `u32` can hold, so the number the
+/// caller sees is not compared (the helpers are: such a code is neither 0 nor 10, 5 or 6).
+pub const RC_UNREPRESENTABLE: u32 = u32::MAX;
+
 pub fn res_expect(r: &ResultSpec, ctrls: &Option<Vec<Ctl>>) -> ResC {
-    ResC { rc: r.rc, matched: r.matched.clone(), text: r.text.clone(), refs: r.refs.clone().unwrap_or_default(), ctrls: ctls_expect(ctrls) }
+    let rc = match r.rc_wide {
+        Some(w) if w > u32::MAX as u64 => RC_UNREPRESENTABLE,
+        Some(w) => w as u32,
+        None => r.rc,
+    };
+    ResC { rc, matched: r.matched.clone(), text: r.text.clone(), refs: r.refs.clone().unwrap_or_default(), ctrls: ctls_expect(ctrls) }
 }
 
 pub fn item_expect(op: &RespOp, ctrls: &Option<Vec<Ctl>>) -> ItemC {
